@@ -106,7 +106,13 @@ def make_pool(rnd, mods, imps, n=40, puml_dir=None):
             cfg = {"verb": "should_not" if anything else rnd.choice(rrule.VERBS), "dir": rnd.choice(rrule.DIRS), "exc": rnd.random() < 0.5, "anything": anything, "subject": ln[0], "objects": [] if anything else ln[1 : 1 + rnd.randint(1, nl - 1)]}
             pool.append((f"layer{i}", (lambda l=layers, k=kinds, c=cfg: c05.make_rule(c05.make_arch(l, k, False), c, False)), {"layers": layers, "kinds": kinds, "rule": cfg}))
         else:
-            comps = rnd.sample(tops, min(len(tops), rnd.randint(2, 4)))
+            import re as _re
+
+            # component names the diagram parser's name class can spell (see the known finding of C06)
+            dtops = [t for t in tops if _re.fullmatch(r"[\w.]+", t) and not t.endswith("__init__")]
+            if len(dtops) < 2:
+                continue
+            comps = rnd.sample(dtops, min(len(dtops), rnd.randint(2, 4)))
             pairs = [(a, b) for a in comps for b in comps if a != b]
             rel = rnd.sample(pairs, rnd.randint(1, min(4, len(pairs))))
             spec = {"components": comps, "relation": rel, "decl": {c: ("[n]", None) for c in comps}, "arrow_forms": [("-->", "[n]", "[n]", "up") for _ in rel]}
@@ -292,6 +298,15 @@ def enumeration(rnd, acc, sample=False):
             home = rnd.choice(homes)
             spec["symlinks"] = [((home + "/" if home else "") + "lnk", target)]
             acc.count("enumeration_trees_with_symlinked_package")
+    if rnd.random() < 0.25:
+        # a module file next to a package of the same name (billing.py beside billing/): both are scanned under one name,
+        # whatever that is worth - but in every enumeration order alike
+        cands = [d for d in all_d if d]
+        if cands:
+            d = rnd.choice(cands)
+            others = [trees.mod_of("proj", f) for f in spec["files"] if f.endswith(".py") and not f.startswith(d + "/") and all(p.isidentifier() for p in f[:-3].split("/"))]
+            spec["files"][d + ".py"] = "\n".join(f"import {t}" for t in rnd.sample(others, min(2, len(others)))) + "\nshadow = 1\n"
+            acc.count("enumeration_trees_with_file_beside_package")
     root = trees.write_tree(spec)
     case = {"kind": "enumeration", "spec": spec}
     try:
@@ -474,7 +489,7 @@ def replay(case, acc):
 
 def floors(acc, tier):
     why = []
-    for c, n in (("purity_snapshots", 5000), ("history_comparisons", 3000), ("interleavings", 50), ("re_applications", 500), ("evaluations_on_another_architecture", 100), ("layer_rule_reapplied_with_unmentioned_regex_layer", 100), ("enumeration_trees_with_symlinked_package", 5), ("argument_permutations", 300), ("enumerations_shuffled", 50), ("hash_seed_runs", 8), ("threaded_evaluations", 100)):
+    for c, n in (("purity_snapshots", 5000), ("history_comparisons", 3000), ("interleavings", 50), ("re_applications", 500), ("evaluations_on_another_architecture", 100), ("layer_rule_reapplied_with_unmentioned_regex_layer", 100), ("enumeration_trees_with_symlinked_package", 5), ("enumeration_trees_with_file_beside_package", 5), ("argument_permutations", 300), ("enumerations_shuffled", 50), ("hash_seed_runs", 8), ("threaded_evaluations", 100)):
         if acc.counters[c] < n:
             why.append(f"{c}: only {acc.counters[c]}")
     return why
